@@ -491,3 +491,6 @@ func Marshal(m message.Message) []byte {
 	}
 	return b
 }
+
+// NewSock opens an additional harness socket (e.g. a simulated gNB).
+func NewSock(ip string, port int) (*Sock, error) { return newSock(ip, port) }
